@@ -297,9 +297,9 @@ func numericStrata(ctx *Ctx, salt string, fracInt bool, args []string) []*sem.Ca
 							}
 							if r.Chance(0.25) {
 								if typ == "integer" {
-									s.MultipleOf = sg.Fp(sg.PickOf(r, []float64{2, 3, 5}))
+									s.MultipleOf = sg.Fp(sg.PickOf(r, []float64{2, 3, 5, 1}))
 								} else {
-									s.MultipleOf = sg.Fp(sg.PickOf(r, []float64{0.25, 0.5, 1.5, 2}))
+									s.MultipleOf = sg.Fp(sg.PickOf(r, []float64{0.25, 0.5, 1.5, 2, 1}))
 								}
 							}
 							return s
